@@ -29,13 +29,12 @@ func (P *projPoint) initXY(x, y *compatible.Int, c kyber.Group) {
 }
 
 func (P *projPoint) getXY() (x, y *mod.Int) {
-	P.normalize()
-	return &P.X, &P.Y
+	return P.affine()
 }
 
 func (P *projPoint) String() string {
-	P.normalize()
-	return P.c.pointString(&P.X, &P.Y)
+	x, y := P.affine()
+	return P.c.pointString(x, y)
 }
 
 func (P *projPoint) MarshalSize() int {
@@ -43,8 +42,8 @@ func (P *projPoint) MarshalSize() int {
 }
 
 func (P *projPoint) MarshalBinary() ([]byte, error) {
-	P.normalize()
-	return P.c.encodePoint(&P.X, &P.Y), nil
+	x, y := P.affine()
+	return P.c.encodePoint(x, y), nil
 }
 
 func (P *projPoint) UnmarshalBinary(b []byte) error {
@@ -106,12 +105,15 @@ func (P *projPoint) EmbedLen() int {
 	return P.c.embedLen()
 }
 
-// Normalize the point's representation to Z=1.
-func (P *projPoint) normalize() {
-	P.Z.Inv(&P.Z)
-	P.X.Mul(&P.X, &P.Z)
-	P.Y.Mul(&P.Y, &P.Z)
-	P.Z.V.SetInt64(1)
+// affine returns the affine coordinates (X/Z, Y/Z) of the point in fresh
+// variables. The receiver is not modified, so that the read-only methods
+// (String, MarshalBinary, Data) may be used concurrently on a shared point.
+func (P *projPoint) affine() (x, y *mod.Int) {
+	var zi, ax, ay mod.Int
+	zi.Inv(&P.Z)
+	ax.Mul(&P.X, &zi)
+	ay.Mul(&P.Y, &zi)
+	return &ax, &ay
 }
 
 func (P *projPoint) Embed(data []byte, rand cipher.Stream) kyber.Point {
@@ -125,8 +127,8 @@ func (P *projPoint) Pick(rand cipher.Stream) kyber.Point {
 
 // Extract embedded data from a point group element
 func (P *projPoint) Data() ([]byte, error) {
-	P.normalize()
-	return P.c.data(&P.X, &P.Y)
+	x, y := P.affine()
+	return P.c.data(x, y)
 }
 
 // Add two points using optimized projective coordinate addition formulas.
